@@ -79,6 +79,16 @@ func c04Run(L int, tcp bool, prefix int, consumerModes int) func() {
 
 // c04RunF: as c04Run; up to failAcks socket writes of acknowledgements fail (transient send error).
 func c04RunF(L int, tcp bool, prefix int, consumerModes int, failAcks int) func() {
+	return c04RunN(L, tcp, prefix, consumerModes, failAcks, false)
+}
+
+// c04RunN: as c04RunF; with noise the gateway may put a frame that is not a tunnelling request in
+// front of every request - a connection-state response nobody asked for (duplicated or late answer
+// to a heartbeat) for the connection's channel or a foreign one, a stray acknowledgement. None of
+// them may keep the receiver from its work (seeded change C04-m: the connection server handed
+// a connection-state response to the heartbeat routine synchronously and stayed blocked when none
+// was waiting).
+func c04RunN(L int, tcp bool, prefix int, consumerModes int, failAcks int, noise bool) func() {
 	return func() {
 		network := "udp"
 		if tcp {
@@ -140,6 +150,16 @@ func c04RunF(L int, tcp bool, prefix int, consumerModes int, failAcks int) func(
 			mode = mc.Choose(consumerModes, mc.Free)
 		}
 		for i := 0; i < L; i++ {
+			if noise {
+				switch mc.Choose(4, mc.Free) {
+				case 1:
+					sock.Deliver(&knxnet.ConnStateRes{Channel: c04Channel, Status: 0})
+				case 2:
+					sock.Deliver(&knxnet.ConnStateRes{Channel: c04Channel + 1, Status: 0})
+				case 3:
+					sock.Deliver(&knxnet.TunnelRes{Channel: c04Channel, SeqNumber: model.exp, Status: 0})
+				}
+			}
 			sym := mc.Choose(7, mc.Free)
 			ch, seq := c04Symbol(sym, model.exp)
 			inject(ch, seq)
@@ -372,6 +392,8 @@ func init() {
 	register("both", &h.Scenario{Name: "C04-udp-stream4-default-timings", Prop: "C04", P: 0, F: 0, D: -1, Run: c04RunF(4, false, 0, 2, -1), Check: c04Oracle(false)})
 	register("both", &h.Scenario{Name: "C04-udp-stream4-ack-write-fails", Prop: "C04", P: 0, F: 2, D: -1, Run: c04RunF(4, false, 0, 2, 2), Check: c04Oracle(false)})
 	register("both", &h.Scenario{Name: "C04-udp-stream4", Prop: "C04", P: 1, F: 0, D: 1, Run: c04Run(4, false, 0, 4), Check: c04Oracle(false)})
+	register("both", &h.Scenario{Name: "C04-udp-stream3-other-frames-between-requests", Prop: "C04", P: 0, F: 0, D: -1, Run: c04RunN(3, false, 0, 2, 0, true), Check: c04Oracle(false)})
+	register("both", &h.Scenario{Name: "C04-tcp-stream3-other-frames-between-requests", Prop: "C04", P: 0, F: 0, D: -1, Run: c04RunN(3, true, 0, 2, 0, true), Check: c04Oracle(true)})
 	register("quick", &h.Scenario{Name: "C04-udp-stream5-p0", Prop: "C04", P: 0, F: 0, D: 0, Run: c04Run(5, false, 0, 3), Check: c04Oracle(false)})
 	register("both", &h.Scenario{Name: "C04-udp-wrap254+stream3", Prop: "C04", P: 1, F: 0, D: 1, Run: c04Run(3, false, 254, 2), Check: c04Oracle(false)})
 	register("both", &h.Scenario{Name: "C04-tcp-stream4", Prop: "C04", P: 1, F: 0, D: 1, Run: c04Run(4, true, 0, 4), Check: c04Oracle(true)})
